@@ -1,5 +1,6 @@
 mod engine;
 mod gen;
+mod guard_alloc;
 mod num;
 mod props;
 mod session;
@@ -8,6 +9,9 @@ mod shared;
 mod term;
 
 use engine::{ShardCfg, Tier};
+
+#[global_allocator]
+static GLOBAL: guard_alloc::Guard = guard_alloc::Guard;
 use std::path::PathBuf;
 
 fn arg_val(args: &[String], name: &str) -> Option<String> {
